@@ -165,9 +165,13 @@ class Fn:
     ret_span: tuple = None    # (start, end) offsets of the return type text, or None
     params_span: tuple = None  # offsets of '(' and matching ')' of the parameter list
     attrs: list = field(default_factory=list)
+    canon_key: str = ''       # key at the pinned commit when the function was merely renamed / moved (engine/follow.py)
+    real_name: str = ''
 
     @property
     def key(self):
+        if self.canon_key:
+            return self.canon_key
         return (self.owner + '::' if self.owner else (self.module + '::' if self.module else '')) + self.name
 
 
